@@ -42,6 +42,9 @@ structure Sc where
   shutdownOk : List Nat := []        -- sides whose Shutdown() returned nil
   lateHashes : List Nat := []        -- payload hashes of writes that were rejected (after shutdown began, on a closed stream)
   badLens   : List Nat := []
+  readers   : Nat := 1               -- goroutines reading one stream concurrently (teardown mode): the order in which their reads are LOGGED is not the delivery order
+  closeCalled : List Nat := []       -- sides on which Close() was called by the scenario's injection
+  sdDone    : List Nat := []         -- sides that sent or were handed a SHUTDOWN-COMPLETE
   deriving Inhabited
 
 def kvs (toks : List String) : List (String × String) :=
@@ -125,8 +128,15 @@ def readsOf (sc : Sc) (side si : Nat) : List Msg :=
 /-- history checks at the end of a scenario -/
 def checkFin (sc : Sc) (fin : List (String × String)) (leakNames : String) : List String := Id.run do
   let mut out : List String := []
-  if getN fin "leaks" != 0 then out := out ++ [s!"[C09] goroutines of the package still alive after Close: {leakNames}"]
-  if getN fin "wrAfterClose" != 0 then out := out ++ ["[C09] write to the connection after it was closed"]
+  let c20 := if sc.mode == "storm" then "C20," else ""
+  let names := (leakNames.splitOn ",").filter (· != "")
+  let dl := names.filter fun n => (n.splitOn "SetReadDeadline").length ≥ 2
+  let other := names.filter fun n => (n.splitOn "SetReadDeadline").length < 2
+  if getN fin "leaks" != 0 && (!other.isEmpty || dl.isEmpty) then
+    out := out ++ [s!"[{c20}C09] goroutines of the package still alive after Close: {",".intercalate other}"]
+  if !dl.isEmpty then
+    out := out ++ [s!"[{c20}C09] read-deadline helper goroutine outlives its association (it only ends at the deadline): {dl.length} x {dl.head!}"]
+  if getN fin "wrAfterClose" != 0 then out := out ++ [s!"[{c20}C09] write to the connection after it was closed"]
   if sc.connFail || sc.connected < 2 then return out
   -- metadata agreement (C04)
   let il := getB sc.hdr "ilA" && getB sc.hdr "ilB"
@@ -139,12 +149,12 @@ def checkFin (sc : Sc) (fin : List (String × String)) (leakNames : String) : Li
     if getB m "zcrecv" != ownZc then out := out ++ [s!"[C04,C13] side {side} zero-checksum receive flag {getB m "zcrecv"} differs from its own option {ownZc}"]
   -- delivery histories (in partial-reliability scenarios a lost or misdelivered message on ANY stream is also a C07 violation:
   -- abandoned messages must not block or destroy anything else)
-  let x07 := if sc.mode == "pr" then "C07," else if sc.mode == "api" then "C18," else ""
+  let x07 := if sc.mode == "pr" then "C07," else if sc.mode == "api" then "C18," else if sc.mode == "storm" then "C20," else ""
   for st in sc.streams do
     let ws := msgsOf sc st.dir st.id
     let rs := readsOf sc (1 - st.dir) st.id
     let reliable := st.relType == 0
-    if reliable && !st.unordered then
+    if reliable && !st.unordered && sc.readers ≤ 1 then
       if !isPrefixOf rs ws then
         out := out ++ [s!"[{x07}C01] ordered reliable stream {st.id}: reads are not a prefix of the accepted writes ({describeDiff rs ws})"]
       else if sc.ended && rs.length != ws.length then
